@@ -35,12 +35,13 @@ def _deref(p, e, depth=0):
     return e
 
 
-def _sep_list(p, r) -> Optional[Tuple[Any, Any, Any, Any]]:
-    """(head, separator, tail element, member before head) if r is `... head ( sep tail )* ...`."""
+def _sep_list(p, r, bounded: bool = False) -> Optional[Tuple[Any, Any, Any, Any]]:
+    """(head, separator, tail element, member before head) if r is `... head ( sep tail )* ...`
+    (bounded=True: the same shape with `?` instead of `*` - a list cut off after its second element)."""
     ms = _content(p, r)
     for i, m in enumerate(ms):
         q = _deref(p, m)
-        if p.kind(q) != "quant" or p.quant(q)[1] != INF:
+        if p.kind(q) != "quant" or (p.quant(q)[1] != INF if not bounded else p.quant(q) != (0, 1)):
             continue
         body = _deref(p, q.members[0])
         if p.kind(body) != "seq":
@@ -102,6 +103,26 @@ def g19(ctx: Ctx):
             witness="" if ok else ("10 DIM A(7):PRINT A(I AND 7)" if rname == "exp_list" else ""),
             props=["C01"] if ladder else _LIST_PROPS.get(rname),
         )
+    # the same shape with `?` where a list has `*`: head and element are one rule, the separator is a list separator -
+    # a list that takes two elements and refuses the third
+    for rname in sorted(p.rules):
+        r = p.rules[rname]
+        if (r.name or rname) != rname or p.kind(r) != "seq":
+            continue
+        sl = _sep_list(p, r, bounded=True)
+        if sl is None:
+            continue
+        head, sep, tail, before = sl
+        seps = p.literal_set(sep) or set()
+        if _elem_id(p, head) == _elem_id(p, tail) and seps & {","}:
+            ctx.ob(
+                f"{rname}:{'/'.join(sorted(seps))}:unbounded",
+                False,
+                f"rule `{rname}` is `{_elem_id(p, head)} ({'/'.join(sorted(seps))} {_elem_id(p, tail)})?`: a list that accepts two elements and refuses a third (`NEXT K,J,I`)",
+                file=GRAMMAR_REL,
+                line=p.line(rname),
+                props=_LIST_PROPS.get(rname),
+            )
     ctx.need(n >= 15, "separated lists", f"only {n} separated lists recognised in the grammar")
 
 
@@ -864,3 +885,328 @@ def g20(ctx: Ctx):
             line=p.line("num_literal"),
             witness="" if bad is None else f"10 IF A THEN B={bad[0].split(kw)[0]}{kw} C=1",
         )
+
+
+# ---------------------------------------------------------------------------
+# P19 COLLECTED-CLASS-BUILT
+
+
+@rule("P19", "COLLECTED-CLASS-BUILT: every statement class that convert() looks for by type (a class object handed to a collecting pass, an isinstance test in a pass) is built by the parser for some source statement - a class nobody builds makes the pass that waits for it dead, and the statement it stands for is handled as something else", ["C06", "C02", "C15"], floor=2, default_props=["C06"])
+def p19(ctx: Ctx):
+    py = pyfacts(ctx)
+    comp = py.mod("coco/b09/compiler.py")
+    conv = next((f for f in comp.tree.body if isinstance(f, ast.FunctionDef) and f.name == "convert"), None)
+    ctx.need(conv is not None, "convert", "not found in compiler.py")
+    wanted: Dict[str, int] = {}
+    for c in ast.walk(conv):
+        if isinstance(c, ast.Call):
+            for a in list(c.args) + [k.value for k in c.keywords]:
+                if isinstance(a, ast.Name) and a.id in py.classes and py.is_subclass(a.id, "AbstractBasicConstruct"):
+                    wanted.setdefault(a.id, c.lineno)
+    ctx.need(len(wanted) >= 2, "collected classes", f"only {sorted(wanted)} handed to a pass as a class object in convert()")
+    built: Set[str] = set()
+    for rel in ("coco/b09/parser.py", "coco/b09/visitors.py", "coco/b09/compiler.py", "coco/b09/error_handler.py", "coco/b09/elements.py"):
+        try:
+            tree = py.mod(rel).tree
+        except Exception:
+            continue
+        for c in ast.walk(tree):
+            if isinstance(c, ast.Call) and isinstance(c.func, ast.Name) and c.func.id in py.classes:
+                built.add(c.func.id)
+        # a class object handed on as a value (`self._on_trap_go(BasicOnBrkGoStatement, children)`) may be called there:
+        # every load of the class name that is not an isinstance / issubclass operand or an annotation counts
+        if rel != "coco/b09/compiler.py":
+            excluded = set()
+            for c in ast.walk(tree):
+                if isinstance(c, ast.Call) and isinstance(c.func, ast.Name) and c.func.id in ("isinstance", "issubclass") and len(c.args) == 2:
+                    excluded |= {id(x) for x in ast.walk(c.args[1])}
+                if isinstance(c, (ast.FunctionDef,)):
+                    for a in c.args.args + c.args.kwonlyargs:
+                        if a.annotation is not None:
+                            excluded |= {id(x) for x in ast.walk(a.annotation)}
+                    if c.returns is not None:
+                        excluded |= {id(x) for x in ast.walk(c.returns)}
+                if isinstance(c, ast.AnnAssign):
+                    excluded |= {id(x) for x in ast.walk(c.annotation)}
+            for fdef in [f for f in ast.walk(tree) if isinstance(f, ast.FunctionDef)]:
+                for c in [x for b_ in fdef.body for x in ast.walk(b_)]:
+                    if isinstance(c, ast.Name) and isinstance(c.ctx, ast.Load) and c.id in py.classes and id(c) not in excluded:
+                        built.add(c.id)
+    for k, ln in sorted(wanted.items()):
+        ok = any(py.is_subclass(b, k) for b in built)
+        sibs = sorted(b for b in built if b != k and py.mro(b)[1:2] and py.mro(k)[1:2] and py.mro(b)[1].name == py.mro(k)[1].name)[:3]
+        ctx.ob(
+            k,
+            ok,
+            "" if ok else f"convert() collects statements of class `{k}` (line {ln}) but nothing in the parser or the passes ever builds one: the source statement it stands for is built as another class (siblings that are built: {sibs}) and is handled by that class' pass - e.g. an ON BRK target treated as the ON ERR target",
+            file="coco/b09/compiler.py",
+            line=ln,
+            witness="" if ok else "10 ON BRK GOTO 100",
+            props=["C06", "C02"],
+        )
+
+
+# ---------------------------------------------------------------------------
+# P20 FILTER-CHOICE
+
+
+@rule("P20", "FILTER-CHOICE: which of the label-filtering passes runs is decided by the filter option alone (the test that chooses between them reads no program-derived value): with the option on, unused labels go whatever the program contains", ["C06", "C11"], floor=1, soft=True)
+def p20(ctx: Ctx):
+    from .core import IdiomNotFound
+
+    py = pyfacts(ctx)
+    comp = py.mod("coco/b09/compiler.py")
+    conv = next((f for f in comp.tree.body if isinstance(f, ast.FunctionDef) and f.name == "convert"), None)
+    if conv is None:
+        raise IdiomNotFound("convert() not found")
+    params = {a.arg for a in conv.args.args + conv.args.kwonlyargs}
+    # label filters: visitor classes that set the `referenced` flag of lines
+    vis = py.mod("coco/b09/visitors.py")
+    filters = {c.name for c in vis.tree.body if isinstance(c, ast.ClassDef) and any(isinstance(x, ast.Call) and isinstance(x.func, ast.Attribute) and x.func.attr == "set_is_referenced" for x in ast.walk(c))}
+    if len(filters) < 2:
+        raise IdiomNotFound(f"fewer than two label-filtering passes found ({sorted(filters)})")
+
+    def built(e) -> Set[str]:
+        return {c.func.id for c in ast.walk(e) if isinstance(c, ast.Call) and isinstance(c.func, ast.Name) and c.func.id in filters}
+
+    n = 0
+    for node in ast.walk(conv):
+        test = None
+        if isinstance(node, ast.IfExp):
+            a, b = built(node.body), built(node.orelse)
+            if a and b and a != b:
+                test = node.test
+        elif isinstance(node, ast.If) and node.orelse:
+            a = set().union(*[built(s_) for s_ in node.body])
+            b = set().union(*[built(s_) for s_ in node.orelse])
+            if a and b and a != b:
+                test = node.test
+        if test is None:
+            continue
+        n += 1
+        names = {x.id for x in ast.walk(test) if isinstance(x, ast.Name)}
+        extra = sorted(names - params)
+        attrs = [unparse(x) for x in ast.walk(test) if isinstance(x, ast.Attribute)]
+        ok = not extra and not attrs
+        ctx.ob(
+            f"choice@{sorted(a)[0]}/{sorted(b)[0]}",
+            ok,
+            "" if ok else f"`{unparse(test)}` decides between {sorted(a)} and {sorted(b)}: besides the option it reads {attrs or extra}, so with the option on a program for which that value is empty / false keeps all its labels",
+            file="coco/b09/compiler.py",
+            line=test.lineno,
+            witness="" if ok else "-l with 10 A=1 / 20 PRINT A  (no jump anywhere)",
+        )
+    if n == 0:
+        raise IdiomNotFound("no place in convert() that chooses between two label-filtering passes")
+
+
+# ---------------------------------------------------------------------------
+# L15 DUPLICATE-RESULT
+
+
+def _assigned_params(L, p) -> Set[int]:
+    """Positions of the parameters a library procedure assigns (directly, or by handing them to a callee that assigns)."""
+    out: Set[int] = set()
+    names = [x[0] for x in p.params]
+    for s_ in L.all_stmts(p):
+        if s_.kind in ("assign", "read") and s_.target in names:
+            out.add(names.index(s_.target))
+        if s_.kind == "run":
+            for a in s_.run_args:
+                a_ = a.strip().lower()
+                if a_ in names:
+                    out.add(names.index(a_))  # may be assigned by the callee: not a pure input
+    return out
+
+
+@rule("L15", "DUPLICATE-RESULT: a library procedure never computes the same thing twice into two different variables - two RUNs of one pure helper with the same inputs and different result variables make the two results equal by construction (a copied line whose callee was not changed: min / min instead of min / max)", ["C04", "C20", "C14"], floor=1, default_props=["C04"])
+def l15(ctx: Ctx):
+    from .b09lib import LIB_REL, b09lib
+
+    L = b09lib(ctx)
+    norm = lambda t: re.sub(r"\s+", "", t.lower())
+    n_pairs = 0
+    for name, p in sorted(L.procs.items()):
+        runs = [s_ for s_ in L.all_stmts(p) if s_.kind == "run" and s_.run_name in L.procs]
+        bad = None
+        for i, a in enumerate(runs):
+            callee = L.procs[a.run_name]
+            outs = _assigned_params(L, callee)
+            if len(outs) != 1 or len(a.run_args) != len(callee.params):
+                continue
+            (o,) = outs
+            for b in runs[i + 1 :]:
+                if b.run_name != a.run_name or len(b.run_args) != len(a.run_args):
+                    continue
+                n_pairs += 1
+                same_in = all(norm(x) == norm(y) for k, (x, y) in enumerate(zip(a.run_args, b.run_args)) if k != o)
+                if same_in and norm(a.run_args[o]) != norm(b.run_args[o]):
+                    # the inputs must not change between the two calls
+                    between = [s_ for s_ in L.all_stmts(p) if a.line < s_.line < b.line or (s_.line == a.line and s_ is not a)]
+                    ins = {w for k, x in enumerate(a.run_args) if k != o for w in re.findall(r"[a-z_][a-z0-9_$]*", x.lower())}
+                    if not any(s_.kind in ("assign", "read", "for") and (s_.target in ins or any(re.match(rf"(?i)\s*for\s+{re.escape(w)}\b", s_.text) for w in ins)) for s_ in between):
+                        bad = (a, b, o)
+        ctx.ob(
+            name,
+            bad is None,
+            "" if bad is None else f"`{bad[0].text.strip()}` (line {bad[0].line}) and `{bad[1].text.strip()}` (line {bad[1].line}) hand the same inputs to `{bad[0].run_name}`, which only computes its parameter {bad[2] + 1}: `{bad[0].run_args[bad[2]].strip()}` and `{bad[1].run_args[bad[2]].strip()}` are always equal - one of the two lines was meant to call a different helper",
+            file=LIB_REL,
+            line=bad[1].line if bad else p.line,
+        )
+    ctx.units["L15_pairs_examined"] = n_pairs
+    ctx.need(n_pairs >= 1, "pairs", "no pair of RUNs of one single-result helper found in the library")
+
+
+# ---------------------------------------------------------------------------
+# A5 COPY-COMPLETE
+
+
+def _copy_sites(tree: ast.AST, classes: Dict[str, ast.ClassDef]):
+    """(call, class, source expression, omitted defaulted parameters) for every `K(src.a, ...)` where `src` is tested to be
+    a K (isinstance in an enclosing test) - a re-built copy of an existing object."""
+    parents = {id(c): p for p in ast.walk(tree) for c in ast.iter_child_nodes(p)}
+    for call in ast.walk(tree):
+        if not (isinstance(call, ast.Call) and isinstance(call.func, ast.Name) and call.func.id in classes):
+            continue
+        k = call.func.id
+        srcs = [unparse(a.value) for a in list(call.args) + [kw.value for kw in call.keywords] if isinstance(a, ast.Attribute)]
+        if not srcs:
+            continue
+        # is one of the sources known to be a K here?
+        known = None
+        g = parents.get(id(call))
+        while g is not None and known is None:
+            tests = []
+            if isinstance(g, (ast.If, ast.IfExp, ast.While)):
+                tests.append(g.test)
+            for t in tests:
+                for c in ast.walk(t):
+                    if isinstance(c, ast.Call) and isinstance(c.func, ast.Name) and c.func.id == "isinstance" and len(c.args) == 2 and unparse(c.args[0]) in srcs and k in {x.id for x in ast.walk(c.args[1]) if isinstance(x, ast.Name)}:
+                        known = unparse(c.args[0])
+            g = parents.get(id(g))
+        if known is None:
+            continue
+        init = next((m for m in classes[k].body if isinstance(m, ast.FunctionDef) and m.name == "__init__"), None)
+        if init is None:
+            continue
+        params = [a.arg for a in init.args.args][1:]
+        nd = len(init.args.defaults)
+        defaulted = params[len(params) - nd :] if nd else []
+        defaulted += [a.arg for a, d in zip(init.args.kwonlyargs, init.args.kw_defaults) if d is not None]
+        given = set(params[: len(call.args)]) | {kw.arg for kw in call.keywords if kw.arg}
+        omitted = [p_ for p_ in defaulted if p_ not in given]
+        yield call, k, known, omitted
+
+
+@rule("A5", "COPY-COMPLETE: where the parser or a pass re-builds an object of a class from an existing object of that class (`K(old.a, ...)` under `isinstance(old, K)`), it passes every defaulted constructor parameter - an omitted one is silently reset (a GOSUB rebuilt as a GOTO)", ["C02", "C06", "C01"], floor=1, default_props=["C02"])
+def a5(ctx: Ctx):
+    py = pyfacts(ctx)
+    el = py.mod("coco/b09/elements.py")
+    classes = {c.name: c for c in el.tree.body if isinstance(c, ast.ClassDef)}
+    probe = ast.parse("def f(s):\n    if isinstance(s, BasicGoto):\n        s = BasicGoto(s.linenum, True)\n    return s\n")
+    twin = ast.parse("def f(s):\n    if isinstance(s, BasicGoto):\n        s = BasicGoto(s.linenum, True, is_gosub=s.is_gosub)\n    return s\n")
+    pk = {"BasicGoto": next((c for c in el.tree.body if isinstance(c, ast.ClassDef) and c.name == "BasicGoto"), None)}
+    ctx.need(pk["BasicGoto"] is not None, "BasicGoto", "class not found (the rule's built-in example needs a class with a defaulted constructor parameter)")
+    ctx.need(any(om for _, _, _, om in _copy_sites(probe, pk)) and all(not om for _, _, _, om in _copy_sites(twin, pk)), "self-test", "the built-in positive example / its twin are no longer told apart")
+    n = 0
+    for rel in ("coco/b09/parser.py", "coco/b09/visitors.py", "coco/b09/compiler.py", "coco/b09/elements.py"):
+        mod = py.mod(rel)
+        sites = list(_copy_sites(mod.tree, classes))
+        n += len(sites)
+        bad = [(c, k, src, om) for c, k, src, om in sites if om]
+        ctx.ob(
+            rel,
+            not bad,
+            "" if not bad else f"`{unparse(bad[0][0])[:70]}` re-builds a `{bad[0][1]}` from `{bad[0][2]}` without passing {bad[0][3]}: whatever the original had there is reset to the default (for a jump: a GOSUB becomes a GOTO, its RETURN has nowhere to return to)",
+            file=rel,
+            line=bad[0][0].lineno if bad else 1,
+            witness="" if not bad else "10 IF A=1 THEN GOSUB 100",
+        )
+    ctx.units["A5_copy_sites"] = n
+
+
+# ---------------------------------------------------------------------------
+# E23 UNSET-FIELD-GUARD
+
+
+def _unset_field_derefs(cls: ast.ClassDef):
+    """(method, field, node, guarded?) for every `self.<f>.<attr>` where <f> starts as None in __init__ and is filled in later."""
+    init = next((m for m in cls.body if isinstance(m, ast.FunctionDef) and m.name == "__init__"), None)
+    if init is None:
+        return
+    none_fields: Set[str] = set()
+    for a in ast.walk(init):
+        if isinstance(a, ast.Assign) and isinstance(a.value, ast.Constant) and a.value.value is None:
+            for t in a.targets:
+                if isinstance(t, ast.Attribute) and isinstance(t.value, ast.Name) and t.value.id == "self":
+                    none_fields.add(t.attr)
+    if not none_fields:
+        return
+    # fields that are always filled in together (same methods assign them): a test of one covers the other
+    setters: Dict[str, Set[str]] = {f: set() for f in none_fields}
+    for m in [x for x in cls.body if isinstance(x, ast.FunctionDef) and x.name != "__init__"]:
+        for a in ast.walk(m):
+            if isinstance(a, ast.Assign) and not (isinstance(a.value, ast.Constant) and a.value.value is None):
+                for t in a.targets:
+                    if isinstance(t, ast.Attribute) and isinstance(t.value, ast.Name) and t.value.id == "self" and t.attr in none_fields:
+                        setters[t.attr].add(m.name)
+    together = {f: {g for g in none_fields if setters[g] and setters[g] == setters[f]} for f in none_fields}
+
+    def tested(test: ast.AST) -> Set[str]:
+        return {n.attr for n in ast.walk(test) if isinstance(n, ast.Attribute) and isinstance(n.value, ast.Name) and n.value.id == "self"}
+
+    for m in [x for x in cls.body if isinstance(x, ast.FunctionDef) and x.name != "__init__"]:
+        parents = {id(c): p for p in ast.walk(m) for c in ast.iter_child_nodes(p)}
+        for n in ast.walk(m):
+            if not (isinstance(n, ast.Attribute) and isinstance(n.value, ast.Attribute) and isinstance(n.value.value, ast.Name) and n.value.value.id == "self" and n.value.attr in none_fields):
+                continue
+            f = n.value.attr
+            if m.name in setters[f] and any(isinstance(a, ast.Assign) and any(isinstance(t, ast.Attribute) and t.attr == f for t in a.targets) and a.lineno < n.lineno for a in ast.walk(m)):
+                yield m, f, n, True
+                continue
+            ok = False
+            g, child = parents.get(id(n)), n
+            while g is not None and not ok:
+                if isinstance(g, (ast.If, ast.While)) and child is not g.test and (tested(g.test) & together[f]) and any(child is b for b in g.body):
+                    ok = not (isinstance(g.test, ast.UnaryOp) and isinstance(g.test.op, ast.Not)) and not (isinstance(g.test, ast.Compare) and isinstance(g.test.ops[0], ast.Is))
+                if isinstance(g, ast.IfExp) and child is g.body and (tested(g.test) & together[f]):
+                    ok = True
+                if isinstance(g, ast.BoolOp) and isinstance(g.op, ast.And) and any((tested(v) & together[f]) for v in g.values[: g.values.index(child)] if child in g.values):
+                    ok = True
+                child, g = g, parents.get(id(g))
+            # a guard clause above: `if not self._f: return`
+            if not ok:
+                for st in m.body:
+                    if st.lineno >= n.lineno:
+                        break
+                    if isinstance(st, ast.If) and (tested(st.test) & together[f]) and st.body and isinstance(st.body[-1], (ast.Return, ast.Raise)) and (isinstance(st.test, ast.UnaryOp) or (isinstance(st.test, ast.Compare) and isinstance(st.test.ops[0], ast.Is))):
+                        ok = True
+            yield m, f, n, ok
+
+
+@rule("E23", "UNSET-FIELD-GUARD: an element field that starts as None and is filled in by a later pass (the result variable of a hoisted call) is dereferenced only under a test of that field (or of a field always filled in with it) - the positions no pass visits (INPUT / READ targets, VARPTR) keep it None", ["C15", "C07"], floor=2, soft=True, default_props=["C15"])
+def e23(ctx: Ctx):
+    from .core import IdiomNotFound
+
+    py = pyfacts(ctx)
+    el = py.mod("coco/b09/elements.py")
+    n = 0
+    for cls in [c for c in el.tree.body if isinstance(c, ast.ClassDef)]:
+        sites = list(_unset_field_derefs(cls))
+        for m, f, node, ok in sites:
+            n += 1
+            k = f"{cls.name}.{m.name}:{f}"
+            if any(o.construct == k for o in ctx.obligations.get("E23", [])):
+                if ok:
+                    continue
+                k += f"@{node.lineno - m.lineno}"
+            ctx.ob(
+                k,
+                ok,
+                "" if ok else f"`{cls.name}.{m.name}` reads `{unparse(node)}` with no test of `self.{f}`, which is None until a pass fills it in: for an expression in a position the passes do not visit (a subscript of an INPUT / READ target, the operand of VARPTR) conversion ends in AttributeError instead of text or a refusal",
+                file="coco/b09/elements.py",
+                line=node.lineno,
+                witness="" if ok else "10 INPUT A(INT(X))",
+            )
+    if n < 2:
+        raise IdiomNotFound(f"only {n} reads of a field that starts as None found in elements.py")
